@@ -37,12 +37,14 @@ for _i in range(150):
 DOCS = {"object": json.dumps(OBJ).encode(), "array": json.dumps(ARR).encode(),
         "json-string": b'"[1, 2, {\\"a\\": [3]}]"', "deep-array": json.dumps(DEEP).encode(),
         # legal encodings of JSON text other than plain UTF-8 (RFC 8259 8.1 allows a reader to accept them; json.loads does)
+        "object-overflowing-number": json.dumps(OBJ).replace('"a": [1, 2, {"b": 3}]', '"a": [1e999, 2, {"b": -1E+400}]').encode(),
         "object-utf16": json.dumps(OBJ).encode("utf-16"), "object-utf8-bom": b"\xef\xbb\xbf" + json.dumps(OBJ).encode(), "malformed": b'{"a": [1, ', "malformed-scalar": b"tru", "undecodable": b'{"a": "\xff\xfe"}', "empty-file": b""}
 
 PATH = {"ok": "$..a[*]", "ok-filter": "$..[?@.n > 1].n", "ok-escape": "$..['\\u00e9']", "ok-empty-result": "$.nope.nada", "ok-empty-query": "", "ok-union": "$..a[*] | $..n | $.s", "ok-intersection": "$..n & $..[?@.n > 1].n",
         "ok-multiline": "$..[?@.n > 1\n  and @.n < 3\n  or @.n == 1\n].n", "ok-membership": "$.items[?@ in $ || $.a contains @.n || @.n in @]", "huge-literal": "$..[?@.n == " + "9" * 5000 + "]", "syntax": "$[1,,2]",
         "type": "$[?length(@.a, @.b) > 1]", "name": "$[?nosuch(@.a)]", "index": "$[9007199254740992]",
         "illtyped-only-when-checked": "$..[?length(@.*) > 1]", "unterminated": "$['a", "bad-regex": "$..[?@.s =~ /(/]"}
+SYNTAX_SAMPLES = ["$[1,,2]", "$.a[-:]", "$[0:2:-]", "$[?@.a ==]", "$.a[:-]", "$[?(@.a]", "$[", "$[?@.a == 1 &&]"]
 POINTER = {"object": {"ok": "/a/2/b", "ok-root": "", "ok-escape": "/\\u00e9", "ok-uri": "/x%20y", "ok-nonascii": "/é", "ok-trailing-space": "/a ", "unresolvable-key": "/nope",
                       "unresolvable-index": "/a/99", "into-scalar": "/s/0", "no-leading-slash": "a/b"},
            "array": {"ok": "/0/a/2/b", "ok-root": "", "ok-escape": "/3/\\u00e9", "ok-uri": "/3/x%20y", "ok-nonascii": "/3/é", "ok-trailing-space": "/3/a ", "unresolvable-key": "/0/nope",
@@ -82,6 +84,9 @@ def replay(rec: Dict[str, Any]) -> List[Tuple[str, Dict[str, Any], str]]:
     doc_bytes = DOCS[dcls]
     if cmd == "path":
         expr_text: Any = PATH[ecls]
+        if ecls == "syntax":
+            # one of several malformed texts, chosen by the option combination
+            expr_text = SYNTAX_SAMPLES[(sum(1 for v in o.values() if v) + len(dcls)) % len(SYNTAX_SAMPLES)]
     elif cmd == "pointer":
         expr_text = POINTER[docshape][ecls]
     else:
